@@ -145,6 +145,30 @@ def robustness(part: str, res: Dict[str, Any], tier: str) -> None:
             fault('url', GOOD, res, url == 'http://h/objects.inv', url, url)
             # the same addresses serving an inventory with a malformed line: the report mentions the address and the line
             fault('url+malformed-line', HEADER + zlib.compress((CTRL1 + 'short%line 100%\n' + CTRL2).encode()), res, url == 'http://h/objects.inv', url, url)
+    elif part == 'locations':
+        # reference reading of the location column (Sphinx inventory v2): a location that ENDS in '$' stands for location[:-1] + name
+        LOCS = ['p.html', 'p.html#$', 'p.html#module-$', 'lib/p.html#x', '$', 'dir/$', 'p.html#$-suffix', 'p$.html#a', 'p.html#a$b$', '#$', 'p.html#%24', 'p.html#$$']
+        NAMES = ['n', 'a.b', 'os', 'x$y', 'caf\u00e9']
+        for base in ('http://h/objects.inv', 'http://h/sub/dir/objects.inv', 'https://h:8080/~u/objects.inv'):
+            prefix = base[:-len('objects.inv')].rstrip('/')
+            for loc in LOCS:
+                for name in NAMES:
+                    for typ in ('py:module', 'py:class', 'py:method'):
+                        line = f'{name} {typ} 1 {loc} -\n'
+                        data = HEADER + zlib.compress((CTRL1 + line + CTRL2).encode())
+                        res['evals'] += 1
+                        inv, msgs, err = load(data, base)
+                        case = {'kind': 'location', 'base': base, 'loc': loc, 'name': name, 'typ': typ}
+                        res['nontrivial'].add(core.h('loc', base, loc, name, typ))
+                        if err:
+                            res['violations'].append(core.violation(f'raises/{err[0]}@{err[1]}/location', f'line {line!r} raises {err[0]}', case))
+                            continue
+                        want = prefix + '/' + (loc[:-1] + name if loc.endswith('$') else loc)
+                        got = inv.getLink(name)
+                        res['outcomes'].add(('location', got == want))
+                        if got != want:
+                            shape = 'ends-with-dollar' if loc.endswith('$') else ('dollar-inside' if '$' in loc else 'plain')
+                            res['violations'].append(core.violation(f'location-misread/{shape}', f'inventory line {line!r} from {base}: getLink({name!r}) = {got!r}, the format says {want!r}', case))
     elif part.startswith('lines'):
         L = int(part.split(':')[1])
         firsts = [COLS[int(part.split(':')[2])]] if part.count(':') == 2 else None
@@ -253,6 +277,7 @@ def jobs(tier: str) -> Iterable[Tuple[str, Any]]:
         yield ('robust:header-bytes', ('robust', f'subst-header:{i}'))
         yield ('robust:payload-bytes', ('robust', f'subst-payload:{i}'))
     yield ('robust:bodies-headers-urls', ('robust', 'bodies'))
+    yield ('reference:locations', ('robust', 'locations'))
     for L in range(0, 6 if tier == 'quick' else 7):
         if L < 4:
             yield (f'robust:lines<={L}', ('robust', f'lines:{L}'))
@@ -297,6 +322,9 @@ def replay(case: Dict[str, Any]) -> List[Dict[str, Any]]:
             res['violations'].append(core.violation('usable-lines-lost/line', 'control lines lost', case))
         elif len(inv._links) <= 2 and not errors_of(msgs) and line.strip() and not non_python_line(line):
             res['violations'].append(core.violation('rejected-line-not-reported/replayed', 'neither used nor reported', case))
+    elif case['kind'] == 'location':
+        robustness('locations', res, 'quick')
+        res['violations'] = [v for v in res['violations'] if v['case'] == case]
     else:
         roundtrip(case['feats'], case['args'], res)
     return res['violations']
